@@ -118,7 +118,14 @@ class AddrMap(object):
 
         params = shlex.split(update)
         if params[0] in self.addr:
-            self.addr[params[0]].update(*params)
+            a = self.addr[params[0]]
+            a.update(*params)
+            if params[0] in self.addr:
+                # still mapped; it may have moved to a new address
+                for key in [k for (k, v) in self.addr.items()
+                            if v is a and k != params[0]]:
+                    del self.addr[key]
+                self.addr[params[1]] = a
 
         else:
             a = Addr(self)
